@@ -523,8 +523,48 @@ class Interp:
             if n not in carried:
                 env[n] = e2.get(n, Opaque(n))
 
+    def stepped_for(self, st, env, it):
+        """`for x in range(a, b[, step])` with integer terms: represented like a while loop whose single state variable is
+        x (init a, guard x < b with step >= 1, next x + step), so that consumers reason about it by induction over x."""
+        a, b = it[1], it[2]
+        step = it[3] if len(it) == 4 else 1
+        if st.orelse:
+            raise HarnessError('intpy: for/else')
+        carried = [n for n in self._assigned(st.body) if n in env and is_int(env[n]) and n != st.target.id]
+        if carried:
+            raise HarnessError(f'intpy: stepped range loop with loop-carried integers {carried}')
+        name = st.target.id
+        x = self.loop_symbol(name)
+        g = z3.And(step >= 1, x < b) if not isinstance(step, int) else (x < b if step >= 1 else None)
+        if g is None:
+            raise HarnessError(f'intpy: range() with a non-positive constant step: {ast.unparse(st.iter)}')
+        loop = {'kind': 'while', 'state': {name: x}, 'init': {name: a if not isinstance(a, int) else z3.IntVal(a)},
+                'guard_term': g, 'guard': self.guard(), 'line': st.lineno}
+        self.loops.append(loop)
+        e2 = dict(env)
+        e2[name] = x
+        self.ctx.append(loop)
+        n0 = len(self.pc)
+        self.pc.append(g)
+        k0 = len(self.events)
+        try:
+            self.block(st.body, e2)
+        except (_Return, _Raise):
+            raise HarnessError('intpy: loop body leaves the loop on an integer condition')
+        finally:
+            del self.pc[n0:]
+            self.ctx.pop()
+        loop['events'] = self.events[k0:]
+        loop['next'] = {name: x + step}
+        for n in self._assigned(st.body):
+            env[n] = e2.get(n, Opaque(n)) if not is_int(e2.get(n)) else Opaque(n)
+        env[name] = Opaque(name)
+
     def for_(self, st, env):
         it = self.ev(st.iter, env)
+        if (isinstance(it, tuple) and it and it[0] == 'range' and len(it) in (3, 4) and isinstance(st.target, ast.Name)
+                and all(is_int(t) or isinstance(t, int) for t in it[1:])):
+            return self.stepped_for(st, env, it)
         if not (isinstance(it, tuple) and it and it[0] == 'range' and len(it) == 2 and isinstance(st.target, ast.Name)):
             if self._only_raises(st.body):
                 return
